@@ -1,7 +1,7 @@
 (* Extraction of the executable model to OCaml.  ExtrOcamlBasic only:
    N, positive, Z, nat and byte stay Coq inductives.  Run coqc from the
    directory that is to receive model.ml. *)
-From MQ Require Import Model.Stream.
+From MQ Require Import Model.Render.
 From Coq Require Import ZArith.
 Require Extraction.
 Require Import ExtrOcamlBasic.
@@ -12,4 +12,5 @@ Extraction "model.ml"
   enc_vb dec_vb width encode decode dec_userprop width_userprop
   vb_stream read_packet write_to run_calls step ctor snapshot wellformed
   encode_pkt unmarshal unmarshal_steps kind_of_nibble kind_nibble applicable zero_pkt
-  read_full one.
+  read_full one string_toks dump_toks first_byte_string connect_flags_string
+  connack_flags_string filter_string reason_toks stars.
